@@ -382,7 +382,7 @@ class _SG:
     d = self.draw
     shape = list(shape)
     # re-use an existing const tensor of the same shape and role
-    if self.cfg.get('reuse_const') and d(st.integers(0, 3)) == 0:
+    if self.cfg.get('reuse_const') and d(st.integers(0, self.cfg.get('reuse_odds', 3))) == 0:
       cands = [i for i, t in enumerate(self.tensors)
                if t['kind'] == 'const' and t['dtype'] == 'f32' and
                t['shape'] == shape and t.get('role') == role and
@@ -399,7 +399,7 @@ class _SG:
     if positive:
       t['rng'] = None
     # share the buffer of an earlier constant with the same shape
-    if self.cfg.get('share_buffers') and d(st.integers(0, 2)) == 0:
+    if self.cfg.get('share_buffers') and d(st.integers(0, self.cfg.get('share_odds', 2))) == 0:
       cands = []
       for (si, sg_t) in self.cfg['_all_tensors']():
         for i, ot in enumerate(sg_t):
@@ -504,7 +504,7 @@ def _apply(g, op, x, cfg):
 
   if op == 'FULLY_CONNECTED':
     f = shape[-1]
-    o = d(st.integers(1, 6))
+    o = d(st.sampled_from(cfg['dim_choices'])) if cfg.get('dim_choices') else d(st.integers(1, 6))
     keep = r > 2 and d(st.booleans())
     oshape = shape[:-1] + [o] if (keep or r == 2) else [int(np.prod(shape[:-1])), o]
     w = g.const_f([o, f], f, op)
@@ -778,7 +778,9 @@ def model_specs(draw, **kw):
     fam = draw(st.sampled_from([2, 2, 3, 4, 4]))
     nin = draw(st.integers(1, 2))
     for _ in range(nin):
-      if fam == 2:
+      if fam == 2 and cfg.get('dim_choices'):
+        shape = [draw(st.integers(1, 2)), draw(st.sampled_from(cfg['dim_choices']))]
+      elif fam == 2:
         shape = [draw(st.integers(1, 3)), draw(st.integers(2, 8))]
       elif fam == 3:
         shape = [draw(st.integers(1, 2)), draw(st.integers(1, 4)), draw(st.integers(2, 8))]
